@@ -35,6 +35,17 @@ RATES = [0.01, 0.5, 1.5, 2.6]          # |w| dt per tick [rad]: nearly equal ...
 FLIPS = ['none', 'alternate', 'first', 'tail', 'random']
 
 
+def fill_tol(pa, pb):
+    """Allowed rotation-angle error of an interpolant between pa and pb.  The linear shortcut taken for nearly equal
+    endpoints (|dot| > 0.9995) is off by at most 0.25 phi^3 (phi: angle between the endpoints on the 3-sphere; measured
+    over 4000 pairs, plus 1e-15 of rounding), which is 8e-6 rad at the threshold and next to nothing for close endpoints;
+    the spherical formula is exact to rounding."""
+    phi = 0.5 * qm.rot_angle(pa, pb)
+    if abs(float(np.dot(pa, pb))) > 0.9994:
+        return min(FILL_TOL, 0.5 * phi ** 3 + 1e-12)
+    return 1e-9
+
+
 def record(scn):
     """The stored sequence: truth of a constant-rate turn, with sign flips and losses applied."""
     n = scn['n']
@@ -82,7 +93,7 @@ class Check:
         'partial claim: the free function slerp() on arbitrary endpoint pairs and weight vectors is input generation and is not decided here; only the endpoint pairs and weights that the repair of a lossy record produces',
         'the last row of a record is never lost and lost leading rows are not judged (the property speaks of interior NaN runs); a leading run must leave the repair of the interior gaps intact',
         'second repair round: 1-3 further interior rows are lost after an in-place repair of the same object and the repair is called again (every third case as inplace=False, every second case after a preview call)',
-        'fill tolerance 1e-5 rad (error of the linear shortcut taken above cos = 0.9995); unit norm 1e-9',
+        'fill tolerance: 0.5 phi^3 + 1e-12 rad for endpoints the linear shortcut serves (phi = their angle on the 3-sphere, twice the measured worst case, at most 1e-5 rad), 1e-9 rad otherwise; unit norm 1e-9',
         'sign flips are judged as rotations: a filled row may be the negative of the reference interpolant',
         'a record whose consecutive true rows are more than 180 degrees of rotation apart has no well-defined sign continuity: spin rates stay below pi rad per tick',
     ]
@@ -121,7 +132,7 @@ class Check:
         for n in range(3, nmax + 1):
             interior = list(range(1, n - 1))
             masks = [list(c) for r in range(len(interior) + 1) for c in itertools.combinations(interior, r)]
-            for rate in RATES:
+            for rate in (RATES + [1e-6, 1e-8] if n in (4, 7) else RATES):       # nearly equal endpoints: a body that barely turns
                 for fl in FLIPS:
                     flips = self._flip_list(fl, n, random.Random(f'C12/flip/{n}/{rate}'))
                     for mask in masks:
@@ -153,7 +164,7 @@ class Check:
     def gen(self, seed, tier):
         rnd = random.Random(f'C12/{seed}')
         n = rnd.choice([5, 12, 40, 150]) if tier == 'quick' else rnd.choice([5, 20, 100, 500, 2000])
-        rate = rnd.choice(RATES + [10 ** rnd.uniform(-3, 0.4), 3.0, 3.1])
+        rate = rnd.choice(RATES + [10 ** rnd.uniform(-3, 0.4), 3.0, 3.1, 10 ** rnd.uniform(-9, -4)])       # ... down to a body that barely turns
         loss = set()
         for _ in range(rnd.randint(0, max(1, n // 5))):
             s = rnd.randrange(1, n - 1)
@@ -255,6 +266,7 @@ class Check:
                     a, b = gap[0] - 1, gap[-1] + 1
                     L = len(gap)
                     pa, pb = stored[a], stored[b]
+                    tol = fill_tol(pa, pb)
                     if abs(float(pa @ pb)) > 0.9995:
                         stats['lerp_branch'] += 1
                     else:
@@ -268,7 +280,7 @@ class Check:
                             alt = np.asarray(fn(pa.copy(), pb.copy(), tfull.copy()), dtype=float)
                             for j in range(0, L + 2):
                                 ref = qm.slerp_ref(pa, pb, j / (L + 1.0))
-                                if not np.all(np.isfinite(alt[j])) or abs(float(alt[j] @ alt[j]) - 1.0) > 1e-9 or not qm.rot_angle(alt[j], ref) <= FILL_TOL:
+                                if not np.all(np.isfinite(alt[j])) or abs(float(alt[j] @ alt[j]) - 1.0) > 1e-9 or not qm.rot_angle(alt[j], ref) <= tol:
                                     viol.append(v(fname, 'off-geodesic', gap[min(max(j, 1), L) - 1], f'{fname} at weight {j}/{L + 1} between {pa} and {pb} (dot {float(pa @ pb):.6g}) gives {alt[j]}, the shortest-arc interpolant is {ref}'))
                                     break
                             else:
@@ -297,7 +309,7 @@ class Check:
                         ref = qm.slerp_ref(pa, pb, j / (L + 1.0))
                         d = qm.rot_angle(row, ref)
                         stats['max_fill_error_rad'] = max(stats.get('max_fill_error_rad', 0.0), d)
-                        if not d <= FILL_TOL:
+                        if not d <= tol:
                             viol.append(v('slerp_nan', 'off-geodesic', i, f'filled row {i} (weight {j}/{L + 1} between rows {a} and {b}, endpoint dot {float(pa @ pb):.6f}) is {d:.3g} rad from the shortest-arc interpolant: {row} vs {ref}'))
                             break
                         # same hemisphere as the first endpoint's representative chosen by the repair: lies on the minor arc
@@ -329,7 +341,7 @@ class Check:
                     for i in lost2:
                         a_, b_ = max(j for j in valid2 if j < i), min(j for j in valid2 if j > i)
                         ref = qm.slerp_ref(first[a_], first[b_], (i - a_) / float(b_ - a_))
-                        if not qm.rot_angle(R2[i], ref) <= FILL_TOL:
+                        if not qm.rot_angle(R2[i], ref) <= fill_tol(first[a_], first[b_]):
                             viol.append(v('slerp_nan', 'off-geodesic', i, f'second repair of the same object: row {i} is {qm.rot_angle(R2[i], ref):.3g} rad from the interpolant of rows {a_} and {b_}'))
                             break
                     for i in valid2:
